@@ -72,7 +72,7 @@ CLAIMED = {
  },
  "C10": {
   "technique": "Lean 4 theorems about buffer sizes / UB sites of the reader model + sanitizer (ASan/UBSan, gcc and clang) runs of the real translator on valid modules, all prefixes and the option matrix",
-  "text": "Every sprintf/stringBuilder/file-name buffer is proved large enough for all arguments of its type (integer rows at full strength); the reader model reaches no undefined operation on any byte string except the two sites named in reader_ub_sites, neither of which is reachable from a prefix of a valid module (tested on every prefix, proved for the guarded sites). The real translator, built with sanitizers, is run on generated and spec-suite modules with names of every kind, every option combination and every truncation point. C10Array (growth arithmetic of array.c regenerated): ensure_capacity_contract (capacity' >= length, old slots preserved), no_wrap_lp64; C10Writer (loop bounds of the implementation-file writer regenerated). Ties: in-process array harness, -g with large name sections, -r with partially differing references, dead-code families, all under ASan/UBSan.",
+  "text": "Every sprintf/stringBuilder/file-name buffer is proved large enough for all arguments of its type (integer rows at full strength); the reader model reaches no undefined operation on any byte string except the two sites named in reader_ub_sites, neither of which is reachable from a prefix of a valid module (tested on every prefix, proved for the guarded sites). The real translator, built with sanitizers, is run on generated and spec-suite modules with names of every kind, every option combination and every truncation point. C10Array (growth arithmetic of array.c regenerated): ensure_capacity_contract (capacity' >= length, old slots preserved), no_wrap_lp64; C10Writer (loop bounds of the implementation-file writer regenerated); C10Names (index arithmetic of the -g debug-name lookup and the reader's name-table discipline regenerated): debug_name_lookup_in_bounds for every table length (a name section in front of the function section gives a table shorter than the index space), name_table_initialised. Ties: name sections in every legal position / repeated name sections under -g, in-process array harness, -g with large name sections, -r with partially differing references, dead-code families, all under ASan/UBSan.",
   "design_ref": "DESIGN.md §5 C10",
   "note": "translate_no_ub for the emitter is tied by sanitizer runs, not proved; float formatting buffer (sprintf_fits_float_partial) assumes glibc's %.17g length bound. A malformed (non-prefix) file can wrap codeSize (outside the quantifier; modelled as ub codeSizeUnderflow). Trusted: sanitizer completeness for the executed paths; tools/extract/gen_reader.py.",
  },
@@ -102,7 +102,7 @@ CLAIMED = {
  },
  "C09": {
   "technique": "Lean 4 proofs of the worker pool (all interleavings, spurious wake-ups), file partition and static/dynamic split + scheduled real w2c2 -t N replay + option-matrix correspondence",
-  "text": "pool_exactly_once / pool_deadlock_free / pool_no_torn_task: the 36-program-counter model of the producer/worker hand-off in c.c delivers every task index exactly once, intact, and never deadlocks, for any number of workers, tasks and any interleaving; partition_exact: file ranges cover [0,n) exactly; split_static_sound. Real `w2c2 -t N` runs under the pthread-interposing scheduler are replayed token by token by the model; the option matrix {-p}x{-m}x{-f}x{-t}x{-r} is checked on real outputs: each function once, texts equal to single-file output, byte-identical across -t and runs, every file compiles alone, selected combinations executed against V8. C09Data: instantiation and what d<k> denotes are the same in every -d mode; C09Split.static_only_if_identical_reference_body for any hash separating the bodies at hand (SHA-1 collision resistance trusted; sha1.c tied to hashlib on every run); C09Threads: workers share no mutable static state (table of written statics regenerated). Ties: TSan build of the translator, -t N byte-identity on constants-heavy multi-file modules, value-carrying br_if families with and without -p.",
+  "text": "C09Seq (call-site argument roles of both #if HAS_PTHREAD branches regenerated): calls_pass_roles, seq_schedule_partition, seq_partition_exact — a translator built without pthreads writes the same partition; the translator is also BUILT in six configurations (no pthreads, bundled getopt / dirname+basename / strdup) and every output file compared byte for byte with the default build's. pool_exactly_once / pool_deadlock_free / pool_no_torn_task: the 36-program-counter model of the producer/worker hand-off in c.c delivers every task index exactly once, intact, and never deadlocks, for any number of workers, tasks and any interleaving; partition_exact: file ranges cover [0,n) exactly; split_static_sound. Real `w2c2 -t N` runs under the pthread-interposing scheduler are replayed token by token by the model; the option matrix {-p}x{-m}x{-f}x{-t}x{-r} is checked on real outputs: each function once, texts equal to single-file output, byte-identical across -t and runs, every file compiles alone, selected combinations executed against V8. C09Data: instantiation and what d<k> denotes are the same in every -d mode; C09Split.static_only_if_identical_reference_body for any hash separating the bodies at hand (SHA-1 collision resistance trusted; sha1.c tied to hashlib on every run); C09Threads: workers share no mutable static state (table of written statics regenerated). Ties: TSan build of the translator, -t N byte-identity on constants-heavy multi-file modules, value-carrying br_if families with and without -p.",
   "design_ref": "DESIGN.md §5 C09, §10",
   "note": "Option-independence of the emitted program is tied by the matrix (texts equal modulo formatting), not yet a Lean theorem over Render. OPEN finding: -m collision with an export literally named f<N>. Trusted: pthread semantics as modelled in Model.Pool.",
  },
